@@ -303,6 +303,7 @@ class _Interp:
         self.outer = outer
         self.effects: Dict[tuple, Effect] = {}
         self.returns: List[Tuple[AV, State]] = []
+        self.yields: List[AV] = []          # values handed out by `yield` (a generator function returns a sequence of them)
         self.loops: List[_LoopCtx] = []
         self.site_counter = 0
         self.fell_through = False
@@ -339,6 +340,16 @@ class _Interp:
             ret = join(ret, v)
             heap_state = join_state(heap_state, s)
         heap = heap_state.heap if heap_state else {}
+        if self.yields:
+            # a generator: what the caller iterates over is a fresh sequence of the yielded values (the body is summarised as if it
+            # ran to completion when the generator is created - effects are attributed to the call, which over-approximates laziness)
+            gen_origin = ("F", self.site(f.node, "gen"))
+            ev = BOTTOM
+            for v in self.yields:
+                ev = join(ev, v)
+            heap = dict(heap)
+            heap[(gen_origin, ELEM)] = (ev, False)
+            ret = AV(origins=[gen_origin])
         return Summary(f, list(self.effects.values()), ret, heap, self.fell_through)
 
     # ------------------------------------------------------------- utilities
@@ -907,6 +918,14 @@ class _Interp:
 
     def e_Starred(self, e, st):
         return self.expr(e.value, st)
+
+    def e_Yield(self, e, st):
+        self.yields.append(self.expr(e.value, st) if e.value is not None else AV(scalar=True, lits=[None]))
+        return AV(scalar=True, lits=[None])
+
+    def e_YieldFrom(self, e, st):
+        self.yields.append(self.elements(st, self.expr(e.value, st)))
+        return AV(scalar=True, lits=[None])
 
     def fresh_container(self, st: State, node, elems: AV, tag="") -> AV:
         s = ("F", self.site(node, tag))
